@@ -244,8 +244,8 @@ func (c *memConn) SetDeadline(t time.Time) error      { return c.deadline() }
 func (c *memConn) SetReadDeadline(t time.Time) error  { return c.deadline() }
 func (c *memConn) SetWriteDeadline(t time.Time) error { return c.deadline() }
 
-func (c *memConn) snapshot() (log []byte, overlaps, midClose int) {
+func (c *memConn) snapshot() (log []byte, overlaps, midClose int, closed bool) {
 	c.mu.Lock()
 	defer c.mu.Unlock()
-	return append([]byte{}, c.log...), c.overlaps, c.midClose
+	return append([]byte{}, c.log...), c.overlaps, c.midClose, c.closed
 }
